@@ -32,6 +32,20 @@ STACKINV = {"pkg": "scanner", "fn": "VerifH_StackInvariant", "quick": {}, "thoro
 CTX = {"pkg": "core", "fn": "VerifH_ContextResolution", "quick": {"K": 4}, "thorough": {"K": 6},
        "stubsets": ["location"], "tabsets": ["kinds"]}
 
+def doc(fn, quick, thorough, **kw):
+    h = {"pkg": "core", "fn": fn, "quick": quick, "thorough": thorough, "stubsets": ["location"]}
+    h.update(kw)
+    return h
+
+DOC_ASSUME = [
+ "documents: 'JSIGHT 0.3' followed by K lines chosen from a menu of directive-line templates; names and first path segments inside a line are symbolic bytes over {a,b} (whether two names coincide is decided by the code's own comparisons and the solver); only schema-free notations (any / empty) occur, so the whole real pipeline runs from the document text: scanner, context resolution, macro expansion, catalog building, validation",
+ "the catalog is observed through a structural rendering of every collection in order (verifSig), not through encoding/json",
+ "jerr.NewLocation summarised (never faults; line/quote not observed)",
+]
+DOC_NOT = ["documents outside the template menu or longer than K lines", "schema bodies and everything that depends on the schema library (jsight / regex notations, ENUM rules, Path / Query / Headers bodies)", "the JSON rendering"]
+
+STRUCT = doc("VerifH_CatalogStructure", {"K": 3}, {"K": 4})
+
 CHECKS = {
  "C01": {
   "title": "Totality",
@@ -41,6 +55,8 @@ CHECKS = {
    LOC,
    scan_project({"N": 2, "M": 1}, {"N": 3, "M": 2}, CORE_ALL),
    CTX,
+   doc("VerifH_PipelineTotal", {"K": 2}, {"K": 3}, budget_violation=True),
+   doc("VerifH_PasteEqualsInline", {"K": 5, "MENU": 1}, {"K": 6, "MENU": 1}, budget_violation=True, depth_budget=300),
   ],
   "assumptions": [
    "schema library body delimiting (jschema/enum FromFile().Len()) replaced by a nondeterministic stub: on r remaining bytes returns any l in 1..r or an error; r = 0 is an error",
@@ -64,6 +80,12 @@ CHECKS = {
   ],
   "assumptions": ["same stubs as C01 for the scanner / scanProject instances"],
   "not_decided": ["attribution of schema-library errors to the directive at fault", "contents longer than the bounds"],
+ },
+ "C04": {
+  "title": "Catalog faithfulness",
+  "harnesses": [STRUCT],
+  "assumptions": DOC_ASSUME + ["reference model (refCatalogSig): reads info, servers, types, tags (declared first, then automatic per first path segment), and interactions with id / method / path / annotation / description / tags / request / responses off the template sequence using the C06 reference resolver for nesting"],
+  "not_decided": DOC_NOT + ["documents with MACRO / PASTE (compared relationally by C07)"],
  },
  "C06": {
   "title": "Context resolution",
@@ -107,6 +129,7 @@ CHECKS = {
   "harnesses": [
    {"pkg": "catalog", "fn": "VerifH_OrderedMaps", "quick": {}, "thorough": {}, "instances": [{"T": t} for t in range(5)], "lock_monitor": True, "no_replay_kinds": ["lock"]},
    {"pkg": "catalog", "fn": "VerifH_IdInjective", "quick": {"N": 3}, "thorough": {"N": 4}},
+   STRUCT,
   ],
   "assumptions": ["ordered collections: pre-state is any state with at most 3 entries satisfying the representation invariant; one step is inductive for histories of any length",
                   "collection keys are 1-byte strings (the code never looks inside a key)"],
@@ -121,6 +144,18 @@ CHECKS = {
   "assumptions": ["lockset monitor: every load/store of the collection's data/order fields, of the map object and of the order slice's elements must happen with the collection's mutex held (write-held for writes); Lock on a held mutex = self-deadlock; no lock may remain held after the operation",
                   "violations of kind 'lock' are not replayed natively (a single-threaded run cannot exhibit them)"],
   "not_decided": ["everything schedule-dependent: data races between goroutines, equality of concurrent and solo results, races inside the schema library / regexp / reggen", "absence of shared mutable package state"],
+ },
+ "C10": {
+  "title": "Declaration order is free",
+  "harnesses": [doc("VerifH_OrderTopLevel", {"K": 3, "MENU": 0}, {"K": 4, "MENU": 0}), doc("VerifH_OrderTopLevel", {"K": 3, "MENU": 1}, {"K": 4, "MENU": 1})],
+  "assumptions": DOC_ASSUME + ["permutation = swap of two adjacent top-level blocks (generates all permutations), kept only when every line keeps its parent under the C06 reference resolver; the JSIGHT header stays first"],
+  "not_decided": DOC_NOT + ["order effects inside the schema library (lazy loading of rules / types): the library is not encoded", "allOf inheritance order (harness pending)"],
+ },
+ "C11": {
+  "title": "Static checks are sound",
+  "harnesses": [doc("VerifH_StaticChecks", {"K": 3}, {"K": 4})],
+  "assumptions": DOC_ASSUME + ["fault predicates (refFaults): duplicate TYPE / SERVER / TAG name, same URL path twice, same method on the same path twice, second Title / Version / Description / Protocol / BaseUrl under one parent, Tags naming a tag no TAG directive declares (when some method uses that Tags directive)"],
+  "not_decided": DOC_NOT + ["dangling type / enum references inside schema bodies", "faults injected through INCLUDE", "required-parameter faults (the templates always carry their parameters)", "paths differing only in a parameter name"],
  },
  "C13": {
   "title": "Path parameters",
@@ -155,14 +190,27 @@ CHECKS = {
   "assumptions": [],
   "not_decided": ["values longer than N bytes", "scanner acceptance of quoted forms is covered by the C14 harness prefix 'Title \"'"],
  },
+ "C18": {
+  "title": "Banned directives",
+  "harnesses": [doc("VerifH_Banned", {"K": 2}, {"K": 3})],
+  "assumptions": DOC_ASSUME + ["banned sets are singletons over the kinds of the menu (INFO, Title, SERVER, URL, GET, POST, 200, TYPE, TAG, MACRO, PASTE)", "the run with the option is compared with the run without it on the same symbolic document"],
+  "not_decided": DOC_NOT + ["banned INCLUDE with the virtual file system (the scan-time check is shared with all other kinds)", "larger banned sets"],
+ },
  "C19": {
   "title": "Tags",
   "harnesses": [
    {"pkg": "catalog", "fn": "VerifH_TagNameInverse", "quick": {"N": 4}, "thorough": {"N": 6}, "tabsets": ["urlescape"]},
    {"pkg": "catalog", "fn": "VerifH_PathTagTitle", "quick": {"N": 5}, "thorough": {"N": 8}},
+   STRUCT,
   ],
   "assumptions": ["net/url.shouldEscape tabulated from the real standard-library code (256 x 8 concrete executions) and used as an exact summary"],
-  "not_decided": ["precedence of method-level / URL-level Tags and sharing of automatic tags (harness pending)", "segments longer than N bytes"],
+  "not_decided": ["segments longer than N bytes", "documents outside the template menu of the structure harness"],
+ },
+ "C20": {
+  "title": "Locality",
+  "harnesses": [doc("VerifH_Locality", {"K": 2}, {"K": 3})],
+  "assumptions": DOC_ASSUME + ["fresh declarations: SERVER @c, TAG @c, TYPE @c any, parenthesised unused MACRO @c, GET /c with a 200 response; inserted before any top-level line or at the end"],
+  "not_decided": DOC_NOT + ["coupling through the schema library (every schema receives every type and rule)", "allOf graphs"],
  },
 }
 
